@@ -64,14 +64,17 @@ def isPrefixOf (a b : List Nat) : Bool := a.length ≤ b.length && b.take a.leng
 /-- Trace oracle (the executable form of c01_stream_shape + c02_join_prefix + c02_contiguous for a
     consumer that was never dropping): the delivered uids are a prefix of
     replay(cut k) ++ published[k..] for SOME cut k of the published sequence. -/
-def traceOk (hevc gop : Bool) (ps : List Pkt) (d : List Nat) : Option Nat :=
+def traceOk (hevc gop : Bool) (ps : List Pkt) (d : List Nat) (full : Bool := false) : Option Nat :=
   let c0 : Cache := { hevc := hevc, cacheGop := gop }
+  -- `full`: the consumer stayed attached and drained, it never dropped: it has the WHOLE stream from
+  -- its cut on (c01_complete_when_not_dropping), not merely a prefix of it
+  let ok (got want : List Nat) : Bool := if full then got == want else isPrefixOf got want
   (List.range (ps.length + 1)).find? (fun k =>
     let rp := (cacheAfter c0 (ps.take k)).pushTo.map (·.uid)
-    isPrefixOf d (rp ++ (ps.drop k).map (·.uid)) ||
-    isPrefixOf d ((ps.drop k).map (·.uid)))     -- joined without the cache
+    ok d (rp ++ (ps.drop k).map (·.uid)) ||
+    ok d ((ps.drop k).map (·.uid)))     -- joined without the cache
 
-/-- `trace <hevc> <gop> <ch:hex,...> <uids;uids;...>` → per consumer `ok<k>` / `bad` -/
+/-- `trace <hevc> <gop> <ch:hex,...> <uids;uids;...>` (a list prefixed by `!` must be complete) → per consumer `ok<k>` / `bad` -/
 def runTrace (hevc gop : Bool) (pub : String) (cons : String) : String :=
   let pkts := (pub.splitOn ",").filter (· ≠ "")
   let ps : List Pkt := (List.range pkts.length).zip pkts |>.filterMap (fun (i, t) =>
@@ -80,8 +83,10 @@ def runTrace (hevc gop : Bool) (pub : String) (cons : String) : String :=
     | _ => none)
   if ps.length ≠ pkts.length then "bad-op" else
   let outs := (cons.splitOn ";").map (fun c =>
+    let full := c.startsWith "!"
+    let c := if full then (c.drop 1).toString else c
     let d := ((c.splitOn ".").filter (· ≠ "")).map natOf
-    match traceOk hevc gop ps d with
+    match traceOk hevc gop ps d full with
     | some k => s!"ok{k}"
     | none => "bad")
   " ".intercalate outs
